@@ -95,4 +95,14 @@ PROPS = {
         "floors": {"evaluations": 3000, "classes": 15},
         "assumptions": ["messages containing the substring 'datagram' are routed to the SPINE path (documented rule) and not counted as presentations"],
     },
+    "C14": {
+        "level": EXPL,
+        "plan": [{"engine": "timers", "timeout": T_SIM}],
+        "rule": "programs over {arm(d), stop, yield, quiescence wait, sleep} issued through the verif timer wrappers on 1..64 real connections per bubble "
+                "(GOMAXPROCS 1..8), each parked in the CMI wait state where a timeout is visible as an error report; the harness model knows when the most "
+                "recently armed, unstopped timer is due (virtual time, exact); plus protocol flows with zero-delay answers followed by 15 idle minutes "
+                "(complete) and prolongation loops (pending); distinct = (delivery expected?, #connections, GOMAXPROCS, zero-gap stop, program length)",
+        "floors": {"evaluations": 2000, "classes": 30, "counters": {"timers:stop-immediately-after-arm": 100}},
+        "assumptions": ["a timeout is observed through its effect (error report / prolongation frame); only the first delivery per connection is visible in hook programs"],
+    },
 }
